@@ -102,9 +102,9 @@ def gen_cases(rng, tier):
                 e = X.join(rng.choice(JOINS), e, rand_rel(rng, rng.sample(ALPHA[:4], rng.randrange(1, 3)), 2))
             out.append(("join %s" % op, e))
         elif k < 0.8:
-            names = rng.sample(["a", "b", "c", "@", "x"], rng.randrange(2, 4))
+            names = rng.sample(["a", "b", "c", "@", "x"], rng.randrange(1, 4))
             a = rand_rel(rng, names, rng.randrange(1, 5))
-            sub = rng.sample(names, rng.randrange(1, len(names)))
+            sub = rng.sample(names, rng.randrange(1, len(names) + (1 if rng.random() < 0.25 else 0)) if len(names) > 1 else 1)
             r = rng.random()
             if r < 0.6:
                 out.append(("nest", X.nest(sub, "n", a, inv=rng.random() < 0.3)))
@@ -152,7 +152,7 @@ def main(tier, seed, replay=None):
     for c in cases:
         ops[c.get("label")] = ops.get(c.get("label"), 0) + 1
     evalcheck.stats(run, cases, outs, codes,
-                    "pairs of relations over the attribute alphabet {a,b,c,x,@,@item,@char} (0-3 attributes a side, any overlap, 1-3 rows over 3 atoms) in the forms relation literal / set of tuples / tuples with shuffled attribute order / computed by => / join-built (stored heading not sorted) / arrays, strings and dicts used as binary relations, x the eight join operators, incl. joins of join results; wide (3-5 columns over a..e) against narrow relations with three or more common columns, either side a chain of joins with any stored column order; nest |..|n, nest ~|..|n, single-attribute nest; rank with one or two keys; join-built relations inside =, &, &~, |, <:, sets and dicts of more than 8 members"
+                    "pairs of relations over the attribute alphabet {a,b,c,x,@,@item,@char} (0-3 attributes a side, any overlap, 1-3 rows over 3 atoms) in the forms relation literal / set of tuples / tuples with shuffled attribute order / computed by => / join-built (stored heading not sorted) / arrays, strings and dicts used as binary relations, x the eight join operators, incl. joins of join results; wide (3-5 columns over a..e) against narrow relations with three or more common columns, either side a chain of joins with any stored column order; nest |..|n, nest ~|..|n, single-attribute nest (relations of one to three attributes, nesting some or all of them); rank with one or two keys; join-built relations inside =, &, &~, |, <:, sets and dicts of more than 8 members"
                     + ("; thorough adds every heading partition (left-only x common x right-only, both stored orders) x 8 operators" if tier == "thorough" else ""),
                     {"operator_histogram": ops, "exhaustive": False})
     run.assumptions = ["rank keys are numbers (other keys are ordered by the Go order, see C06)"]
